@@ -782,7 +782,7 @@ func c10FuzzValues(rng *Rng, v any, key string, pct int) any {
 }
 
 func runC10(r *Run) {
-	r.Rule = "valid stream: grammar-directed generator of typed v1 documents (0-5 kubernetes bindings with every option: name/default, apiVersion, executeHookOnEvent / watchEvent incl. [], the three synchronization/memory flags absent/true/false, name/label/field/namespace selectors, jqFilter, allowFailure, includeSnapshotsFrom, queue, group; 0-3 schedules; validating / mutating / conversion bindings; settings; onStartup; 12% v0 documents), each rendered as YAML and as JSON and loaded by the real HookConfig.LoadAndValidate; the effective config is compared item by item with the model (correspondence) and judged by the specification (oracles: counts, documented defaults, group union, unambiguous effective includes, YAML = JSON, no panic). fault stream: every single-fault mutation (14 typed-level kinds also judged by the model, 21 schema-level kinds) of a valid document must be rejected, in both renderings. value-fuzz stream (TESTING): schema-valid documents whose scalars are replaced by odd values of the same type (crontabs with zero / huge / negative steps, durations, label keys, field-selector values, names, int32 overflow ...) — no panic, no hang, YAML = JSON. malformed stream (TESTING, not a theorem: third-party decoders and the OpenAPI validator are outside the model): random and mutated byte strings under recover — never a panic, always error-or-config. A case is non-trivial when it is a valid document with >= 2 binding kinds and a group or include, or a fault case, or a malformed case whose bytes decode to a map; distinct = distinct op-line sequences."
+	r.Rule = "valid stream: grammar-directed generator of typed v1 documents (0-5 kubernetes bindings with every option: name/default, apiVersion, executeHookOnEvent / watchEvent incl. [], the three synchronization/memory flags absent/true/false, name/label/field/namespace selectors, jqFilter, allowFailure, includeSnapshotsFrom, queue, group; 0-3 schedules; validating / mutating / conversion bindings; settings; onStartup; 12% v0 documents), each rendered as YAML and as JSON and loaded by the real HookConfig.LoadAndValidate; the effective config is compared item by item with the model (correspondence) and judged by the specification (oracles: counts, documented defaults, group union, unambiguous effective includes, YAML = JSON, no panic). exhaustive scope: every combination (5 184) of the options that have a documented default on one kubernetes binding. fault stream: every single-fault mutation (14 typed-level kinds also judged by the model, 21 schema-level kinds) of a valid document must be rejected, in both renderings. value-fuzz stream (TESTING): schema-valid documents whose scalars are replaced by odd values of the same type (crontabs with zero / huge / negative steps, durations, label keys, field-selector values, names, int32 overflow ...) — no panic, no hang, YAML = JSON. malformed stream (TESTING, not a theorem: third-party decoders and the OpenAPI validator are outside the model): random and mutated byte strings under recover — never a panic, always error-or-config. A case is non-trivial when it is a valid document with >= 2 binding kinds and a group or include, or a fault case, or a malformed case whose bytes decode to a map; distinct = distinct op-line sequences."
 	// warm the schema cache: it is an unsynchronised package-level map (the operator loads hooks sequentially)
 	config.GetSchema("v0")
 	config.GetSchema("v1")
@@ -859,6 +859,48 @@ func runC10(r *Run) {
 			c.Oracle("reject fault=none-expected-valid verdict=ok-expected-but-" + v)
 		}
 	})
+	// exhaustive small scope: every combination of the options that have a documented default, on one
+	// kubernetes binding next to a grouped neighbour and a schedule of the same group
+	{
+		evOpts := []*[]string{nil, {}, {"Added"}, {"Deleted", "Modified"}}
+		boolOpts := []*bool{nil, c10Bptr(true), c10Bptr(false)}
+		type combo struct {
+			ee, we           *[]string
+			sync, wait, keep *bool
+			af               *bool
+			queue, name      string
+		}
+		var combos []combo
+		for _, ee := range evOpts {
+			for _, we := range evOpts {
+				for _, sy := range boolOpts {
+					for _, wa := range boolOpts {
+						for _, ke := range boolOpts {
+							for _, af := range boolOpts {
+								for _, q := range []string{"", "q1"} {
+									for _, n := range []string{"", "a"} {
+										combos = append(combos, combo{ee, we, sy, wa, ke, af, q, n})
+									}
+								}
+							}
+						}
+					}
+				}
+			}
+		}
+		r.Exhaust = true
+		r.Extra["exhaustive_scope"] = fmt.Sprintf("all %d combinations of executeHookOnEvent x watchEvent (absent, [], one, two) x executeHookOnSynchronization x waitForSynchronization x keepFullObjectsInMemory x allowFailure (absent, true, false) x queue x name (absent, given) on one kubernetes binding", len(combos))
+		r.Cases(100000, len(combos), 0, func(c *Case, rng *Rng) {
+			k := combos[c.Idx-100000]
+			d := c10Doc{Kubes: []c10Kube{{Kind: "Pod", Name: k.name, ExecEvents: k.ee, WatchEvents: k.we, Sync: k.sync, Wait: k.wait, Keep: k.keep,
+				AllowFailure: k.af, Queue: k.queue, Group: "g"}, {Kind: "ConfigMap", Name: "b", Group: "g"}},
+				Scheds: []c10Sched{{Crontab: "* * * * *", Group: "g", AllowFailure: k.af, Queue: k.queue}}}
+			c10RunDoc(c, d, policy)
+			c.Nontrivial = true
+			c.Note("exhaustive-options")
+			c.Desc = "exhaustive option combination"
+		})
+	}
 	nFault := r.N(1400, 14000)
 	r.Cases(200000, nFault, 0, func(c *Case, rng *Rng) {
 		c.Nontrivial = true
